@@ -121,6 +121,25 @@ class relative_se3(FnContract):
         se3 = c.And(*spec.is_SE3_exact(a.p1, c.eq))
         yield Clause("A*rel(A,B)==B_on_SE3", c.Implies(se3, c.eq(spec.mul4(a.p1, res), a.p2)), role="prop",
                      note="rel(A,B) = A^-1 * B")
+        both = c.And(*(spec.is_SE3_exact(a.p1, c.eq) + spec.is_SE3_exact(a.p2, c.eq)))
+        rot = res[:3, :3]
+        yield Clause("rotation_block_is_a_rotation_for_SE3_inputs",
+                     c.Implies(both, c.And(*[cond for _, cond in self._accept_steps(c, rot)])), role="aux")
+        yield Clause("rotation_block_accepted_for_SE3_inputs", c.Implies(both, so3_accept(c, rot)), role="aux")
+        yield Clause("bottom_row_for_SE3_inputs", c.Implies(both, c.And(c.eq(res[3, 0], 0), c.eq(res[3, 1], 0),
+                                                                        c.eq(res[3, 2], 0), c.eq(res[3, 3], 1))), role="aux")
+
+    def _accept_steps(self, c, rot):
+        rtr = np.dot(np.asarray(rot).T, np.asarray(rot))
+        for i in range(3):
+            for j in range(3):
+                yield "RtR_%d%d" % (i, j), c.eq(rtr[i, j], 1 if i == j else 0)
+        yield "det", c.eq(npstub.det(rot), 1)
+
+    def hints(self, c, a, res):
+        both = c.And(*(spec.is_SE3_exact(a.p1, c.eq) + spec.is_SE3_exact(a.p2, c.eq)))
+        for lab, cond in self._accept_steps(c, res[:3, :3]):
+            yield lab, c.Implies(both, cond)
 
 
 @register
